@@ -7,7 +7,7 @@ everything that depends on them, so the theorems are re-checked against what the
 import os, re, sys
 
 REPO = os.environ.get("VERIF_REPO", "/repo")
-OUT = os.path.join(os.path.dirname(os.path.abspath(__file__)), "..", "coq", "Gen")
+OUT = os.environ.get("VERIF_GEN_OUT") or os.path.join(os.path.dirname(os.path.abspath(__file__)), "..", "coq", "Gen")
 
 
 def parse_enum(path, name):
@@ -25,13 +25,98 @@ def parse_enum(path, name):
             depth -= 1
         j += 1
     body = src[i:j - 1]
-    # strip comments
+    # strip comments and attributes
     body = re.sub(r"/\*.*?\*/", "", body, flags=re.S)
     body = re.sub(r"//[^\n]*", "", body)
+    body = re.sub(r"#\[[^\]]*\]", "", body)
     out = []
-    for mm in re.finditer(r"\b([A-Za-z_][A-Za-z0-9_]*)\s*=\s*(0x[0-9a-fA-F]+|[0-9]+)\s*,?", body):
-        out.append((mm.group(1), int(mm.group(2), 0)))
+    prev = -1
+    for item in split_top(body):
+        item = item.strip()
+        if not item:
+            continue
+        mm = re.match(r"^([A-Za-z_][A-Za-z0-9_]*)\s*(?:=\s*(.+))?$", item, flags=re.S)
+        if not mm:
+            raise SystemExit("gen_tables: cannot read variant %r of enum %s" % (item[:60], name))
+        if mm.group(2) is None:
+            val = prev + 1                       # Rust: implicit discriminant = previous + 1
+        else:
+            val = const_eval(mm.group(2), dict(out))
+            if val is None:
+                raise SystemExit("gen_tables: cannot evaluate discriminant %r of %s::%s" % (mm.group(2).strip()[:60], name, mm.group(1)))
+        out.append((mm.group(1), val))
+        prev = val
+    # canonical order (by value, then name): the declaration order of variants with explicit discriminants has no
+    # meaning in Rust, so a reordering of the source must not change the generated table
+    out.sort(key=lambda nv: (nv[1], nv[0]))
     return out
+
+
+def split_top(body):
+    items, depth, cur = [], 0, []
+    for ch in body:
+        if ch in "([{":
+            depth += 1
+        elif ch in ")]}":
+            depth -= 1
+        if ch == "," and depth == 0:
+            items.append("".join(cur)); cur = []
+        else:
+            cur.append(ch)
+    items.append("".join(cur))
+    return items
+
+
+def const_eval(expr, env):
+    """integer constant expressions as they occur in discriminants and `const` items: literals in any base with `_`
+    and type suffixes, + - * / % << >> | & ^ ~, parentheses, `as <int type>` casts, `uN::MAX`, earlier variants
+    (`Self::X`, `Enum::X`).  Returns None for anything else."""
+    import ast
+    e = expr.strip().rstrip(";").strip()
+    def _bytes(m):
+        parts = [const_eval(x, env) for x in split_top(m.group(2)) if x.strip()]
+        if any(v is None or not 0 <= v < 256 for v in parts):
+            return m.group(0)
+        if m.group(1) == "le":
+            parts = parts[::-1]
+        return str(int.from_bytes(bytes(parts), "big"))
+    e = re.sub(r"\b[iu](?:8|16|32|64|128)::from_(be|le)_bytes\(\s*\[([^\]]*)\]\s*\)", _bytes, e)
+    e = re.sub(r"\bas\s+[iu](?:8|16|32|64|128|size)\b", "", e)
+    e = re.sub(r"\bu(8|16|32|64|128)::MAX\b", lambda m: str(2 ** int(m.group(1)) - 1), e)
+    e = re.sub(r"\bi(8|16|32|64|128)::MAX\b", lambda m: str(2 ** (int(m.group(1)) - 1) - 1), e)
+    e = re.sub(r"\b(?:[A-Za-z_][A-Za-z0-9_]*::)+([A-Za-z_][A-Za-z0-9_]*)\b", lambda m: "__v_" + m.group(1), e)
+    e = re.sub(r"\b(0x[0-9a-fA-F_]+|0o[0-7_]+|0b[01_]+|[0-9][0-9_]*)(?:_?[iu](?:8|16|32|64|128|size))?\b",
+               lambda m: m.group(1).replace("_", ""), e)
+    e = re.sub(r"(?<![\w.])/(?![\w.])", "//", e) if "/" in e else e
+    e = e.replace("!", "~")
+    try:
+        tree = ast.parse(e, mode="eval")
+    except SyntaxError:
+        return None
+
+    def ev(n):
+        if isinstance(n, ast.Expression):
+            return ev(n.body)
+        if isinstance(n, ast.Constant) and isinstance(n.value, int) and not isinstance(n.value, bool):
+            return n.value
+        if isinstance(n, ast.Name) and n.id.startswith("__v_") and n.id[4:] in env:
+            return env[n.id[4:]]
+        if isinstance(n, ast.Name) and n.id in env:
+            return env[n.id]
+        if isinstance(n, ast.UnaryOp) and isinstance(n.op, (ast.USub, ast.Invert, ast.UAdd)):
+            v = ev(n.operand)
+            return None if v is None else (-v if isinstance(n.op, ast.USub) else (~v & 0xFFFFFFFFFFFFFFFF) if isinstance(n.op, ast.Invert) else v)
+        if isinstance(n, ast.BinOp):
+            a, b = ev(n.left), ev(n.right)
+            if a is None or b is None:
+                return None
+            ops = {ast.Add: lambda: a + b, ast.Sub: lambda: a - b, ast.Mult: lambda: a * b, ast.FloorDiv: lambda: a // b if b else None,
+                   ast.Mod: lambda: a % b if b else None, ast.LShift: lambda: a << b if 0 <= b < 256 else None, ast.RShift: lambda: a >> b if 0 <= b < 256 else None,
+                   ast.BitOr: lambda: a | b, ast.BitAnd: lambda: a & b, ast.BitXor: lambda: a ^ b}
+            f = ops.get(type(n.op))
+            return f() if f else None
+        return None
+    return ev(tree)
 
 
 def emit(fname, ident, table, header):
@@ -67,8 +152,10 @@ def parse_consts():
         except OSError:
             return ""
     for rel in ("src/keypair/mod.rs", "src/ecies/ecies_ciphertext.rs"):
-        for m in re.finditer(r"\bconst\s+([A-Z_0-9]+)\s*:\s*u(?:8|16|32|64|size)\s*=\s*(0x[0-9a-fA-F_]+|[0-9_]+)\s*;", src(rel)):
-            out.append((m.group(1), int(m.group(2).replace("_", ""), 0)))
+        for m in re.finditer(r"\bconst\s+([A-Z_0-9]+)\s*:\s*u(?:8|16|32|64|size)\s*=\s*([^;]+);", src(rel)):
+            v = const_eval(m.group(2), dict((k, x) for k, x in out if isinstance(x, int)))
+            if v is not None:
+                out.append((m.group(1), v))
     m = re.search(r'const\s+MAGIC_BYTES\s*:\s*&\[u8\]\s*=\s*b"((?:[^"\\]|\\.)*)"\s*;', src("src/bsm/mod.rs"))
     if m:
         raw = m.group(1).encode("utf-8").decode("unicode_escape").encode("latin-1")
@@ -81,10 +168,36 @@ def parse_consts():
     blocks = re.findall(r"ChainParams\s*\{([^{}]*?magic\s*:\s*0x[0-9a-fA-F]+[^{}]*?)\}", cp, flags=re.S)
     for name, blk in zip(("MAINNET", "TESTNET"), blocks):
         for field in ("p2pkh", "p2sh", "privkey", "xpub", "xpriv"):
-            mm = re.search(r"\b%s\s*:\s*(0x[0-9a-fA-F]+|[0-9]+)" % field, blk)
-            if mm:
-                out.append(("%s_%s" % (name, field.upper()), int(mm.group(1), 0)))
+            mm = re.search(r"\b%s\s*:\s*([^,}]+)" % field, blk)
+            v = const_eval(mm.group(1), {}) if mm else None
+            if v is not None:
+                out.append(("%s_%s" % (name, field.upper()), v))
     return out
+
+
+# Constants that coq/Proofs/ConstsTie.v ties to the models, with the value the models use.  A constant that is no
+# longer found in the source under its known name (renamed, inlined, computed at run time: a source translator cannot
+# follow that, and a rename is not a change of behaviour) is emitted with the model's value and a NOTE is printed: its
+# source tie is skipped for this run and what the code does with it is then decided by the correspondence run alone.
+# A constant that IS found with another value is emitted as found, so ConstsTie.v stops building.
+EXPECTED = {
+    "HARDENED_KEY_OFFSET": 0x80000000, "XPRIV_VERSION_BYTE": 0x0488ade4, "XPUB_VERSION_BYTE": 0x0488b21e,
+    "PUB_KEY_OFFSET": 4, "BSM_MAGIC_BYTES": list(b"Bitcoin Signed Message:\n"), "ECIES_MAGIC": list(b"BIE1"),
+    "MAINNET_P2PKH": 0, "MAINNET_XPUB": 0x0488b21e, "MAINNET_XPRIV": 0x0488ade4,
+}
+
+
+def with_fallback(consts):
+    have = dict(consts)
+    notes = []
+    for k, v in EXPECTED.items():
+        if k not in have:
+            consts.append((k, v))
+            notes.append(k)
+    for k in notes:
+        print("gen_tables: NOTE constant %s not found in the source under its known name (renamed, inlined or computed): "
+              "source tie skipped, behaviour covered by the correspondence run only" % k)
+    return consts
 
 
 def emit_consts(consts):
@@ -110,7 +223,7 @@ def main():
     sh = parse_enum(os.path.join(REPO, "src/transaction/sighash.rs"), "SigHash")
     c1 = emit("Opcodes_gen.v", "opcode_table", ops, "src/script/op_codes.rs")
     c2 = emit("Sighash_gen.v", "sighash_table", sh, "src/transaction/sighash.rs")
-    consts = parse_consts()
+    consts = with_fallback(parse_consts())
     c3 = emit_consts(consts)
     print("gen_tables: %d opcodes%s, %d sighash values%s, %d constants%s" % (len(ops), " (changed)" if c1 else "", len(sh), " (changed)" if c2 else "", len(consts), " (changed)" if c3 else ""))
 
